@@ -251,6 +251,11 @@ def run_case(ctx, P, stream, idx):
         dev("other-file-touched", "paths other than the output changed: %r" % touched)
     if not accepted:
         P.count("rejected")
+        # every generated request names an existing input property and an existing output location: a run that
+        # fails did not replace the selected location
+        last = (pr.stderr.decode().strip().splitlines() or ["?"])[-1]
+        dev("command-fails.%s" % last.split(":")[0].strip()[:30], "sync_properties exited %d on a valid request: %s" % (
+            pr.returncode, last[:200]))
         if after != out_src:
             dev("rejected-but-output-changed", "command failed (%s) yet the output file changed" % (
                 pr.stderr.decode().strip().splitlines() or ["?"])[-1][:120])
